@@ -1,7 +1,7 @@
 -- GENERATED from /repo by /verif/extract/extract.py on every run. Do not edit.
 namespace Rj.Generated
-def filterWrapPre : String := "^"
-def filterWrapPost : String := "$"
+def filterWrapPre : String := "^(?:"
+def filterWrapPost : String := ")$"
 def channelCapacity : Option Nat := (some 104857600)
 def firstChunk : Option Nat := (some 4096)
 def chunkGrowth : Option Nat := (some 2)
